@@ -952,3 +952,32 @@ pub fn gen_program(rng: &mut Rng, o: &GenOpts) -> Program {
 pub fn uses_stack_ext(p: &Program) -> bool {
     p.items.iter().any(|i| matches!(i, Item::Stmt { stmt, .. } if stmt.uses_stack_ext()))
 }
+
+
+/// Rename a label everywhere (definition and references).
+pub fn rename_label(p: &mut Program, old: &str, new: &str) {
+    let fix = |t: &mut Target| {
+        if let Target::Label(l) = t {
+            if l == old {
+                *l = new.to_string();
+            }
+        }
+    };
+    for it in p.items.iter_mut() {
+        if let Item::Stmt { label, stmt } = it {
+            if label.as_deref() == Some(old) {
+                *label = Some(new.to_string());
+            }
+            match stmt {
+                Stmt::Br(_, t) | Stmt::Jsr(t) => fix(t),
+                Stmt::Ld(_, t) | Stmt::Ldi(_, t) | Stmt::Lea(_, t) | Stmt::St(_, t) | Stmt::Sti(_, t) => fix(t),
+                Stmt::Call(l) => {
+                    if l == old {
+                        *l = new.to_string();
+                    }
+                }
+                _ => {}
+            }
+        }
+    }
+}
